@@ -22,8 +22,14 @@ extern MPT_STRUCT(node) *mpt_list_clone(const MPT_STRUCT(node) *src)
 				last = mpt_gnode_after(last, cpy);
 			}
 			/* require empty or cloned subtree */
-			if (!src->children
-			    || (cpy->children = mpt_list_clone(src->children))) {
+			if (!src->children) {
+				continue;
+			}
+			if ((cpy->children = mpt_list_clone(src->children))) {
+				MPT_STRUCT(node) *sub;
+				for (sub = cpy->children; sub; sub = sub->next) {
+					sub->parent = cpy;
+				}
 				continue;
 			}
 		}
@@ -43,10 +49,15 @@ extern MPT_STRUCT(node) *mpt_tree_clone(const MPT_STRUCT(node) *src)
 	if (!(cpy = mpt_node_clone(src))) {
 		return 0;
 	}
-	if (src->children
-	    && !(cpy->children = mpt_list_clone(src->children))) {
-		mpt_node_destroy(cpy);
-		return 0;
+	if (src->children) {
+		MPT_STRUCT(node) *sub;
+		if (!(cpy->children = mpt_list_clone(src->children))) {
+			mpt_node_destroy(cpy);
+			return 0;
+		}
+		for (sub = cpy->children; sub; sub = sub->next) {
+			sub->parent = cpy;
+		}
 	}
 	return cpy;
 }
